@@ -1,11 +1,11 @@
 (* C17 — the abstract statement and the executable oracles.
    (1) comparison algebra: [c17_cmp_laws] (what the six results must satisfy given the exact order),
-       documented definitions over exact rationals [c17_spec_eqQ] with a rounding margin [c17_eq_verdict];
-   (2) documented rounding / truncation over exact rationals [c17_spec_trunc_ok], [c17_spec_round_ok];
+       documented definitions over exact dyadic rationals [c17_spec_eq_exact] with a rounding margin [c17_eq_verdict];
+   (2) documented rounding / truncation over exact dyadic rationals [c17_spec_trunc_ok], [c17_spec_round_ok];
    (3) integer helpers: exact power, factorial, binomial coefficient (Pascal's triangle IS the definition);
    (4) classifiers: any / all.
    The oracles are applied to the implementation's own output by the correspondence check. *)
-From Coq Require Import ZArith QArith Qabs Qround Qminmax List Bool.
+From Coq Require Import ZArith List Bool.
 From Flocq Require Import Core BinarySingleNaN.
 From DuneV Require Import C17_Model.
 Import ListNotations.
@@ -19,83 +19,114 @@ Definition c17_cmp_laws (xlt xgt eq ne gt lt ge le : bool) : bool :=
   (* exactly one of less / equal / greater *)
   (if eq then negb lt && negb gt else xorb lt gt).
 
-Definition c17_spec_rhsQ (s : c17_cstyle) (eps a b : Q) : Q :=
+(* exact dyadic numbers m * 2^e (every finite binary float is one); exact +, -, *, comparisons *)
+Record c17_dy := C17_Dy { c17_dm : Z; c17_de : Z }.
+Definition c17_dy_of_Z (z : Z) : c17_dy := C17_Dy z 0.
+Definition c17_dy_pow2 (e : Z) : c17_dy := C17_Dy 1 e.
+Definition c17_dy_mul (a b : c17_dy) : c17_dy := C17_Dy (c17_dm a * c17_dm b) (c17_de a + c17_de b).
+Definition c17_dy_al (a b : c17_dy) : Z * Z :=
+  let e := Z.min (c17_de a) (c17_de b) in
+  (Z.shiftl (c17_dm a) (c17_de a - e), Z.shiftl (c17_dm b) (c17_de b - e)).
+Definition c17_dy_add (a b : c17_dy) : c17_dy :=
+  let (x, y) := c17_dy_al a b in C17_Dy (x + y) (Z.min (c17_de a) (c17_de b)).
+Definition c17_dy_sub (a b : c17_dy) : c17_dy :=
+  let (x, y) := c17_dy_al a b in C17_Dy (x - y) (Z.min (c17_de a) (c17_de b)).
+Definition c17_dy_abs (a : c17_dy) : c17_dy := C17_Dy (Z.abs (c17_dm a)) (c17_de a).
+Definition c17_dy_leb (a b : c17_dy) : bool := let (x, y) := c17_dy_al a b in (x <=? y)%Z.
+Definition c17_dy_ltb (a b : c17_dy) : bool := let (x, y) := c17_dy_al a b in (x <? y)%Z.
+Definition c17_dy_eqb (a b : c17_dy) : bool := let (x, y) := c17_dy_al a b in (x =? y)%Z.
+Definition c17_dy_max (a b : c17_dy) : c17_dy := if c17_dy_leb a b then b else a.
+Definition c17_dy_min (a b : c17_dy) : c17_dy := if c17_dy_leb a b then a else b.
+Definition c17_dy_floor (a : c17_dy) : Z :=
+  if (0 <=? c17_de a)%Z then Z.shiftl (c17_dm a) (c17_de a) else Z.shiftr (c17_dm a) (- c17_de a).
+
+Definition c17_spec_rhs (s : c17_cstyle) (eps a b : c17_dy) : c17_dy :=
   match s with
-  | C17_RelWeak => eps * Qmax (Qabs a) (Qabs b)
-  | C17_RelStrong => eps * Qmin (Qabs a) (Qabs b)
+  | C17_RelWeak => c17_dy_mul eps (c17_dy_max (c17_dy_abs a) (c17_dy_abs b))
+  | C17_RelStrong => c17_dy_mul eps (c17_dy_min (c17_dy_abs a) (c17_dy_abs b))
   | C17_Absolute => eps
   end.
-(* the documented definition, exact arithmetic *)
-Definition c17_spec_eqQ (s : c17_cstyle) (eps a b : Q) : bool :=
-  Qle_bool (Qabs (a - b)) (c17_spec_rhsQ s eps a b).
-
-Definition c17_pow2Q (e : Z) : Q :=
-  match e with Z0 => 1 | Zpos p => inject_Z (2 ^ Zpos p) | Zneg p => 1 # (2 ^ p)%positive end.
+(* the documented definition, exact arithmetic:  |a - b| <= eps * max|min(|a|,|b|)  resp.  <= eps *)
+Definition c17_spec_eq_exact (s : c17_cstyle) (eps a b : c17_dy) : bool :=
+  c17_dy_leb (c17_dy_abs (c17_dy_sub a b)) (c17_spec_rhs s eps a b).
 
 (* What a correctly rounded evaluation in format (prec, emax) may answer: [Some b] = must be b,
    [None] = the two sides are within rounding distance of each other (or near overflow). *)
-Definition c17_eq_verdict (prec emax : Z) (s : c17_cstyle) (eps a b : Q) : option bool :=
-  let l := Qabs (a - b) in
-  let r := c17_spec_rhsQ s eps a b in
-  let slack := (l + r) * c17_pow2Q (3 - prec) + c17_pow2Q (5 - emax - prec) in
-  let big := c17_pow2Q (emax - 2) in
-  if Qle_bool big l || Qle_bool big r || Qle_bool big (Qabs a) || Qle_bool big (Qabs b) then None
-  else if Qle_bool (l + slack) r && negb (Qeq_bool (l + slack) r) then Some true
-  else if Qle_bool (r + slack) l && negb (Qeq_bool (r + slack) l) then Some false
+Definition c17_eq_verdict (prec emax : Z) (s : c17_cstyle) (eps a b : c17_dy) : option bool :=
+  let l := c17_dy_abs (c17_dy_sub a b) in
+  let r := c17_spec_rhs s eps a b in
+  let slack := c17_dy_add (c17_dy_mul (c17_dy_add l r) (c17_dy_pow2 (3 - prec))) (c17_dy_pow2 (5 - emax - prec)) in
+  let big := c17_dy_pow2 (emax - 2) in
+  if c17_dy_leb big l || c17_dy_leb big r || c17_dy_leb big (c17_dy_abs a) || c17_dy_leb big (c17_dy_abs b) then None
+  else if c17_dy_eqb a b then Some true          (* |a-b| = 0 exactly, and 0 <= eps*x for every eps, x >= 0 *)
+  else if c17_dy_ltb (c17_dy_add l slack) r then Some true
+  else if c17_dy_ltb (c17_dy_add r slack) l then Some false
   else None.
 
 (* vectors: conjunction over components (and equal length) *)
-Definition c17_spec_veq (eqc : Q -> Q -> bool) (a b : list Q) : bool :=
+Definition c17_spec_veq {A : Type} (eqc : A -> A -> bool) (a b : list A) : bool :=
   Nat.eqb (length a) (length b) && forallb (fun p => eqc (fst p) (snd p)) (combine a b).
 
 (* ---------------------------------------------------------------- (2) rounding / truncation *)
 Definition c17_compat (v : option bool) (b : bool) : bool :=
   match v with None => true | Some x => Bool.eqb x b end.
 
-(* trunc: "If val is already near an integer in terms of epsilon, the result will be that integer
-   instead of the real truncated value"; downward = floor, upward = ceiling. *)
-Definition c17_spec_trunc_ok (prec emax : Z) (r : c17_rstyle) (s : c17_cstyle) (eps v : Q) (z : Z) : bool :=
-  let near (i : Z) := c17_eq_verdict prec emax s eps (inject_Z i) v in
-  let fl := Qfloor v in
-  let down := match r with
-              | C17_Downward => true | C17_Upward => false
-              | C17_TowardZero => Qle_bool 0 v && negb (Qeq_bool 0 v)
-              | C17_TowardInf => negb (Qle_bool 0 v && negb (Qeq_bool 0 v)) end in
-  if Qeq_bool (inject_Z fl) v then Z.eqb z fl
-  else if down then
-    (Z.eqb z fl && c17_compat (near (fl + 1)%Z) false) || (Z.eqb z (fl + 1) && c17_compat (near (fl + 1)%Z) true)
-  else
-    (Z.eqb z (fl + 1) && (c17_compat (near fl) false || c17_compat (near (fl + 1)%Z) true))
-    || (Z.eqb z fl && c17_compat (near fl) true && c17_compat (near (fl + 1)%Z) false).
+Definition c17_spec_down (r : c17_rstyle) (v : c17_dy) : bool :=
+  match r with
+  | C17_Downward => true | C17_Upward => false
+  | C17_TowardZero => (0 <? c17_dm v)%Z
+  | C17_TowardInf => negb (0 <? c17_dm v)%Z
+  end.
 
-(* round: a nearest integer; near-ties (in terms of epsilon) go downward / upward as documented *)
-Definition c17_spec_round_ok (prec emax : Z) (r : c17_rstyle) (s : c17_cstyle) (eps v : Q) (z : Z) : bool :=
-  let fl := Qfloor v in
-  let dl := v - inject_Z fl in
-  let du := inject_Z (fl + 1) - v in
-  let close := Qle_bool (Qabs (dl - du)) (c17_pow2Q (3 - prec)) in
+(* trunc: "If val is already near an integer in terms of epsilon, the result will be that integer
+   instead of the real truncated value"; downward = floor, upward = ceiling.
+   [c17_spec_trunc_ideal] is the real truncated value. *)
+Definition c17_spec_trunc_ideal (r : c17_rstyle) (v : c17_dy) : Z :=
+  let fl := c17_dy_floor v in
+  if c17_dy_eqb (c17_dy_of_Z fl) v then fl else if c17_spec_down r v then fl else (fl + 1)%Z.
+
+Definition c17_spec_trunc_ok (prec emax : Z) (r : c17_rstyle) (s : c17_cstyle) (eps v : c17_dy) (z : Z) : bool :=
+  let near (i : Z) := c17_eq_verdict prec emax s eps (c17_dy_of_Z i) v in
+  let fl := c17_dy_floor v in
+  let ideal := c17_spec_trunc_ideal r v in
+  let other := if Z.eqb ideal fl then (fl + 1)%Z else fl in
+  if Z.eqb z ideal then c17_compat (near other) false || c17_compat (near ideal) true
+  else c17_compat (near z) true.
+
+(* round: a nearest integer; near-ties (in terms of epsilon) go downward / upward as documented.
+   [c17_spec_round_ideal] is the exactly rounded value (exact ties in the documented direction). *)
+Definition c17_spec_round_ideal (r : c17_rstyle) (v : c17_dy) : Z :=
+  let fl := c17_dy_floor v in
+  let dl := c17_dy_sub v (c17_dy_of_Z fl) in
+  let du := c17_dy_sub (c17_dy_of_Z (fl + 1)) v in
+  if c17_dy_eqb (c17_dy_of_Z fl) v then fl
+  else if c17_dy_ltb dl du then fl else if c17_dy_ltb du dl then (fl + 1)%Z
+  else if c17_spec_down r v then fl else (fl + 1)%Z.
+
+Definition c17_spec_round_ok (prec emax : Z) (r : c17_rstyle) (s : c17_cstyle) (eps v : c17_dy) (z : Z) : bool :=
+  let fl := c17_dy_floor v in
+  let dl := c17_dy_sub v (c17_dy_of_Z fl) in
+  let du := c17_dy_sub (c17_dy_of_Z (fl + 1)) v in
+  let close := c17_dy_leb (c17_dy_abs (c17_dy_sub dl du)) (c17_dy_pow2 (3 - prec)) in
   let tie := if close then None else c17_eq_verdict prec emax s eps dl du in
-  let near (i : Z) := c17_eq_verdict prec emax s eps (inject_Z i) v in
-  let down := match r with
-              | C17_Downward => true | C17_Upward => false
-              | C17_TowardZero => Qle_bool 0 v && negb (Qeq_bool 0 v)
-              | C17_TowardInf => negb (Qle_bool 0 v && negb (Qeq_bool 0 v)) end in
-  if Qeq_bool (inject_Z fl) v then Z.eqb z fl
+  let near (i : Z) := c17_eq_verdict prec emax s eps (c17_dy_of_Z i) v in
+  let down := c17_spec_down r v in
+  if c17_dy_eqb (c17_dy_of_Z fl) v then Z.eqb z fl
   else
     (Z.eqb z fl &&
        (c17_compat (near fl) true || close ||
-        (if down then Qle_bool dl du || c17_compat tie true
-         else (Qle_bool dl du && negb (Qeq_bool dl du)) && c17_compat tie false)))
+        (if down then c17_dy_leb dl du || c17_compat tie true
+         else c17_dy_ltb dl du && c17_compat tie false)))
     || (Z.eqb z (fl + 1) &&
        (c17_compat (near (fl + 1)%Z) true || close ||
-        (if down then Qle_bool du dl && c17_compat tie false
-         else Qle_bool du dl || c17_compat tie true))).
+        (if down then c17_dy_leb du dl && c17_compat tie false
+         else c17_dy_leb du dl || c17_compat tie true))).
 
 (* exact value of a finite float *)
-Definition c17_toQ {prec emax : Z} (v : binary_float prec emax) : Q :=
+Definition c17_to_dy {prec emax : Z} (v : binary_float prec emax) : c17_dy :=
   match v with
-  | B754_finite s m e _ => inject_Z (cond_Zopp s (Zpos m)) * c17_pow2Q e
-  | _ => 0
+  | B754_finite s m e _ => C17_Dy (cond_Zopp s (Zpos m)) e
+  | _ => C17_Dy 0 0
   end.
 
 (* ---------------------------------------------------------------- (3) integer helpers *)
@@ -116,10 +147,12 @@ Fixpoint c17_choose (n k : nat) : Z :=
   end.
 Definition c17_spec_binomial (n k : Z) : Z :=
   if (k <? 0) || (n <? k) then 0 else c17_choose (Z.to_nat n) (Z.to_nat k).
-(* fast evaluation for the oracle (proved equal to the triangle: C17_choose_fast_correct) *)
+(* fast evaluation for the oracle (agreement with the triangle: bounded sweep C17_binomial_fast_agrees_upto_16): incremental product  C(m+i,i) = C(m+i-1,i-1) * (m+i) / i  after the symmetry reduction *)
+Fixpoint c17_binom_inc (m : Z) (cnt : nat) (i acc : Z) : Z :=
+  match cnt with O => acc | S c => c17_binom_inc m c (i + 1) (acc * (m + i) / i) end.
 Definition c17_spec_binomial_fast (n k : Z) : Z :=
   if (k <? 0) || (n <? k) then 0
-  else c17_spec_factorial n / (c17_spec_factorial k * c17_spec_factorial (n - k)).
+  else let k' := Z.min k (n - k) in c17_binom_inc (n - k') (Z.to_nat k') 1 1.
 
 Definition c17_spec_sign (v : Z) : Z := if v <? 0 then -1 else 1.
 
